@@ -40,8 +40,129 @@ def oracle(fam, code, got):
     return None
 
 
+THREADED = r"""
+import sys, threading, json, os
+import bellows.types as t
+# expected answers straight from the table (no call of the conversion before the threads start)
+checks = []
+for fam in (t.EmberStatus, t.EzspStatus):
+    for c in (0x00, 0x01, 0x03, 0x18, 0x72, 0x90, 0x91, 0x93, 0xA1, 0xB1, 0xB6, 0x13, 0xFE):
+        st = fam(c)
+        checks.append((st, int(t.SL_STATUS_MAP.get((type(st), st), t.sl_Status.FAIL))))
+named = t.sl_Status.from_ember_status.__func__.__code__.co_filename
+
+
+def scenario(k):
+    # thread A is single-stepped (line by line, inside the module of the conversion) through the FIRST conversion of this process;
+    # when it has reached stop k, a second thread converts the check list; returns (mismatches, number of stops)
+    bad = []
+    paused = threading.Semaphore(0)
+    resume = threading.Semaphore(0)
+    finished = []
+
+    def tracer(frame, event, arg):
+        if frame.f_code.co_filename != named:
+            return None
+        def local(frame, event, arg):
+            if event == "line":
+                paused.release()
+                resume.acquire()
+            return local
+        return local
+
+    def thread_a():
+        sys.settrace(tracer)
+        try:
+            t.sl_Status.from_ember_status(t.EmberStatus.ERR_FATAL)
+        finally:
+            sys.settrace(None)
+            finished.append(1)
+            paused.release()
+
+    ta = threading.Thread(target=thread_a)
+    ta.start()
+    stops = 0
+    while True:
+        paused.acquire()
+        if finished:
+            break
+        if stops == k:
+            for st, want in checks:
+                try:
+                    got = int(t.sl_Status.from_ember_status(st))
+                except Exception as e:
+                    got = "raised:" + type(e).__name__
+                if got != want:
+                    bad.append([type(st).__name__, int(st), got, want, stops, 0])
+        stops += 1
+        resume.release()
+        if stops > 100000:
+            break
+    ta.join(5)
+    return bad, stops
+
+
+def in_child(k):
+    r, w = os.pipe()
+    pid = os.fork()
+    if pid == 0:
+        os.close(r)
+        try:
+            out = scenario(k)
+        except BaseException as e:
+            out = ([["harness", 0, type(e).__name__, 0, k, 0]], 0)
+        os.write(w, json.dumps(out).encode())
+        os._exit(0)
+    os.close(w)
+    data = b""
+    while True:
+        chunk = os.read(r, 65536)
+        if not chunk:
+            break
+        data += chunk
+    os.waitpid(pid, 0)
+    return json.loads(data.decode())
+
+
+_, n = in_child(-1)              # how many stops the first conversion has when nobody interferes
+ks = list(range(n)) if n <= 80 else sorted(set(int(i * (n - 1) / 79) for i in range(80)))
+allbad = []
+for k in ks:
+    bad, _ = in_child(k)         # each placement of the second thread in a process of its own (forked before any conversion)
+    allbad += bad
+    if allbad:
+        break
+print(json.dumps(allbad[:5]))
+"""
+
+
+def threaded_first_use(ctx, trials):
+    """the EZSP thread and the application thread both normalise statuses: in a fresh process one thread is single-stepped through its
+    first conversion and, at every line boundary, another thread converts a list of statuses; every answer is the table's"""
+    import json
+    import os
+    import subprocess
+    import sys
+
+    out = []
+    env = dict(os.environ)
+    for _ in range(trials):
+        p = subprocess.run([sys.executable, "-c", THREADED], env=env, capture_output=True, text=True, timeout=120)
+        ctx.cov["evaluations"] += 1
+        ctx.count("threaded-first-use")
+        try:
+            bad = json.loads(p.stdout.strip().splitlines()[-1])
+        except Exception:  # noqa: BLE001
+            bad = [["harness", 0, (p.stderr or p.stdout)[-200:], "", 0, 0]]
+        out += bad
+    return out
+
+
 def run(ctx, big=False):
     logging.disable(logging.CRITICAL)
+    for b in threaded_first_use(ctx, ctx.n(1, 3))[:1]:
+        ctx.violation(f"with several threads converting statuses right from process start, {b[0]}({b[1]:#x}) was converted to {b[2]!r}, the table says {b[3]:#x} "
+                      f"(second thread running while the first is at stop {b[4]} of its first conversion)", {"kind": "threads"}, {"threads": True})
     cs = cases(ctx)
     impl = [_impl(f, c) for f, c in cs]
     model = ctx.driver([f"c18 conv {f} {c}" for f, c in cs])
@@ -60,7 +181,7 @@ def run(ctx, big=False):
         if i % 97 == 0:
             ctx.sample({"family": f, "code": c, "impl": got, "model": model[i] if model else None})
     ctx.cov["rule"] = ("all 256 codes of EmberStatus and EzspStatus (defined and undefined) converted in ascending order, again in descending order and again at random (one process: repeated conversions), every defined sl_Status, "
-                       "seeded random 32-bit unified values; distinct = distinct (family, code); every case is non-trivial "
+                       "seeded random 32-bit unified values; a fresh process in which one thread is single-stepped through its first conversion while a second thread converts at every line boundary; distinct = distinct (family, code); every case is non-trivial "
                        "(each exercises the conversion); the 8-bit families are enumerated completely")
     ctx.exhaustive = True
 
@@ -70,6 +191,12 @@ search = run
 
 def replay(ctx, obj):
     r = obj["replay"]
+    if r.get("threads"):
+        bad = threaded_first_use(ctx, 1)
+        print(f"replay threaded first use: {'FAILS: ' + str(bad[0]) if bad else 'ok'}")
+        if bad:
+            print(f"VIOLATION property={ctx.pid} replay=replay")
+        return 1 if bad else 0
     got = _impl(r["family"], r["code"])
     bad = oracle(r["family"], r["code"], got)
     if not bad:   # a repeated conversion
